@@ -637,6 +637,32 @@ func runC18(c *mc.Ctx) {
 				}
 			}
 		}
+		// the same single-position differences INSIDE long lists (a key precomputed for transactions with
+		// many inputs or outputs may drop a stretch of the hash / script that the pairwise comparator
+		// reads): 47, 48, 49, 64 and 100 elements of which two differ at one byte position only
+		for _, n := range []int{47, 48, 49, 64, 100} {
+			for pos := 0; pos < 32; pos++ {
+				a, b := bytes.Repeat([]byte{0x55}, 32), bytes.Repeat([]byte{0x55}, 32)
+				a[pos], b[pos] = 0x63, 0x64
+				var ins []c18XIn
+				ins = append(ins, c18XIn{mc.Hex(b), 1}, c18XIn{mc.Hex(a), 1})
+				for k := 2; k < n; k++ {
+					f := bytes.Repeat([]byte{byte(k)}, 32)
+					f[31] = byte(0x80 + k)
+					ins = append(ins, c18XIn{mc.Hex(f), uint32(k % 3)})
+				}
+				xs = append(xs, c18Case{XIns: ins})
+				if pos < 40 && pos%3 == 0 {
+					sa, sb := bytes.Repeat([]byte{0x55}, 40), bytes.Repeat([]byte{0x55}, 40)
+					sa[pos], sb[pos] = 0x63, 0x64
+					outs := []c18XOut{{7, mc.Hex(sb)}, {7, mc.Hex(sa)}}
+					for k := 2; k < n; k++ {
+						outs = append(outs, c18XOut{int64(k % 5), mc.Hex([]byte{byte(k), byte(k >> 1), 0x51})})
+					}
+					xs = append(xs, c18Case{XOuts: outs})
+				}
+			}
+		}
 		// very large transactions (a different code path may be taken above some size): n inputs spread
 		// over two txids with indexes 0..n/2 (so indexes >= 256 and >= 65536 share a txid), n outputs
 		// with amounts and scripts in a deterministic shuffled order
